@@ -1,7 +1,8 @@
 /-
 C01 for the C text as it is now: "every character read in the lexer is preceded by an end-of-input check", as a THEOREM
 about the Lean text generated from libscpi/src/lexer.c on every run (Gen/LexerC.lean), for the functions translated AND
-proved so far (work-plan groups 1-4; see notes/EXT_GEN_LEXER_REPORT.md for the ones still tied by the hand model + sanitizers only).
+proved so far (all 13 recognisers `scpiLex_*` and the `skip*` helpers; not: `scpiLex_ProgramData`, `scpiLex_IsEos` aside - see
+notes/EXT_GEN_LEXER_REPORT.md).
 
 Props/C01.lean says why the hand model cannot state this: it fuses `!iseos(state) && p(state->pos[0])` into `peekP`.  The
 generated text keeps them apart: every `state->pos[k]` is `rd state k`, which raises `oob` when `pos + k` is outside
@@ -14,21 +15,24 @@ import ScpiVerif.Lemmas.Bounds
 namespace ScpiVerif.Props.C01Gen
 open ScpiVerif ScpiVerif.Lexer ScpiVerif.Gen.LexerC ScpiVerif.Lemmas.LexerC
 
-/-- no recogniser of groups 3-4, started anywhere in any buffer with any token content, evaluates `state->pos[k]` outside
+/-- no recogniser proved so far, started anywhere in any buffer with any token content, evaluates `state->pos[k]` outside
 the buffer or exhausts the fuel of a loop; the cursor it leaves is inside the buffer and not before its start -/
 theorem c_lex_no_oob (buf : Bytes) (pos : Nat) (h : pos ≤ buf.length) (tok : CTok) (ch : UInt8) :
     ∀ r ∈ [scpiLex_WhiteSpace (st buf pos) tok, scpiLex_CharacterProgramData (st buf pos) tok,
            scpiLex_DecimalNumericProgramData (st buf pos) tok, scpiLex_NondecimalNumericData (st buf pos) tok,
            scpiLex_Comma (st buf pos) tok, scpiLex_Semicolon (st buf pos) tok, scpiLex_Colon (st buf pos) tok,
-           scpiLex_SpecificCharacter (st buf pos) tok (sc ch), scpiLex_NewLine (st buf pos) tok],
+           scpiLex_SpecificCharacter (st buf pos) tok (sc ch), scpiLex_NewLine (st buf pos) tok,
+           scpiLex_SuffixProgramData (st buf pos) tok, scpiLex_ProgramHeader (st buf pos) tok,
+           scpiLex_StringProgramData (st buf pos) tok, scpiLex_ProgramExpression (st buf pos) tok,
+           scpiLex_ArbitraryBlockProgramData (st buf pos) tok],
       r.1.oob = false ∧ r.1.ub = false ∧ r.1.buf = buf ∧ (pos : Int) ≤ r.1.pos ∧ r.1.pos ≤ buf.length := by
   have hb := Lemmas.Bounds.lex_bounds buf pos h
   simp only [List.mem_cons, List.mem_nil_iff, or_false, forall_eq_or_imp, forall_eq] at hb
-  obtain ⟨h1, _, h3, h4, _, h6, _, _, _, h10, h11, h12, h13, _⟩ := hb
+  obtain ⟨h1, h2, h3, h4, h5, h6, h7, h8, h9, h10, h11, h12, h13, _⟩ := hb
   have hs := (Props.C13.specific_spec buf pos ch h)
   intro r hr
   simp only [List.mem_cons, List.mem_nil_iff, or_false] at hr
-  rcases hr with rfl | rfl | rfl | rfl | rfl | rfl | rfl | rfl | rfl
+  rcases hr with rfl | rfl | rfl | rfl | rfl | rfl | rfl | rfl | rfl | rfl | rfl | rfl | rfl | rfl
   · rw [scpiLex_WhiteSpace_ref]; simp only [res, st_oob, st_ub, st_buf, st_pos, true_and]; omega
   · rw [scpiLex_CharacterProgramData_ref]; simp only [res, st_oob, st_ub, st_buf, st_pos, true_and]; omega
   · rw [scpiLex_DecimalNumericProgramData_ref]; simp only [res, st_oob, st_ub, st_buf, st_pos, true_and]; omega
@@ -43,6 +47,11 @@ theorem c_lex_no_oob (buf : Bytes) (pos : Nat) (h : pos ≤ buf.length) (tok : C
     · next hp => have := peekP_lt hp; simp; omega
     · simp; omega
   · rw [scpiLex_NewLine_ref]; simp only [res, st_oob, st_ub, st_buf, st_pos, true_and]; omega
+  · rw [scpiLex_SuffixProgramData_ref]; simp only [res, st_oob, st_ub, st_buf, st_pos, true_and]; omega
+  · rw [scpiLex_ProgramHeader_ref]; simp only [res, st_oob, st_ub, st_buf, st_pos, true_and]; omega
+  · rw [scpiLex_StringProgramData_ref]; simp only [res, st_oob, st_ub, st_buf, st_pos, true_and]; omega
+  · rw [scpiLex_ProgramExpression_ref]; simp only [res, st_oob, st_ub, st_buf, st_pos, true_and]; omega
+  · rw [scpiLex_ArbitraryBlockProgramData_ref]; simp only [res, st_oob, st_ub, st_buf, st_pos, true_and]; omega
 
 /-- the skipping primitives: same statement (they are what the recognisers not yet proved are built from) -/
 theorem c_skip_no_oob (buf : Bytes) (pos : Nat) :
